@@ -67,6 +67,7 @@ func (w *World) SetupTxUniverse() {
 	add("R3", []wire.OutPoint{fund(2)}, [][]byte{irr, rel}, 6)
 	add("M1", []wire.OutPoint{fund(1), fund(2)}, [][]byte{rel}, 7) // conflicts with I1 and R3
 	add("I2", []wire.OutPoint{fund(3)}, [][]byte{irr}, 8)
+	add("M2", []wire.OutPoint{fund(0), fund(2)}, [][]byte{rel}, 9) // conflicts with R1 (first input) and R3 (second input)
 }
 
 func (w *World) relevant(name string) bool {
@@ -202,6 +203,19 @@ func (w *World) applyTxEvent(p []string) (bool, bool) {
 		w.noteArrival(p[1], "local", "tx")
 		w.settle()
 		return true, true
+	case "reorgmine": // reorgmine:<d>:<tx>: the peer reorganises d blocks away; the first new block contains tx
+		d, _ := strconv.Atoi(p[1])
+		if d >= len(w.Best)-1 || d < 1 {
+			return true, false
+		}
+		w.Abandoned = append([]string(nil), w.Best...)
+		w.Best = append([]string(nil), w.Best[:len(w.Best)-d]...)
+		w.everReorged, w.lastUnsync = true, w.S.Now
+		w.Extend(1, strings.Split(p[2], ","))
+		w.Extend(d, nil)
+		w.Announce(w.P)
+		w.settle()
+		return true, true
 	case "mine", "mine+": // mine:<tx>[,<tx>]: the peer mines a block with these txs and announces it (mine+: and the node processes it)
 		var names []string
 		if len(p) > 1 && p[1] != "" {
@@ -333,13 +347,30 @@ func (w *World) firstBody(name string) (arrival, bool) {
 	return arrival{}, false
 }
 
-func (w *World) minedIn(name string) *tblock {
+// minedBlocks returns every block containing the tx (a tx can be mined again on another branch).
+func (w *World) minedBlocks(name string) []*tblock {
+	var out []*tblock
 	for _, b := range w.Tree.blocks {
 		for _, t := range b.txs {
 			if t == name {
-				return b
+				out = append(out, b)
 			}
 		}
+	}
+	sort.Slice(out, func(i, j int) bool { return out[i].name < out[j].name })
+	return out
+}
+
+// minedIn returns the block containing the tx, preferring the one on the peer's best chain.
+func (w *World) minedIn(name string) *tblock {
+	bs := w.minedBlocks(name)
+	for _, b := range bs {
+		if b.height < len(w.Best) && w.Best[b.height] == b.name {
+			return b
+		}
+	}
+	if len(bs) > 0 {
+		return bs[0]
 	}
 	return nil
 }
@@ -476,6 +507,13 @@ func (w *World) oracleFlags(final bool) {
 			}
 			if s.UnSafe || s.Cancelled {
 				sawUnsafe = true
+			}
+			if i > 0 && s.Safe && t.states[i-1].Safe && (s.MerkleProof != nil) == (t.states[i-1].MerkleProof != nil) && s.Cancelled == t.states[i-1].Cancelled {
+				cls := "safe reported again without any change"
+				if t.gens[i] != t.gens[i-1] {
+					cls += " (across restart)"
+				}
+				w.fail("C07", "safe-once", cls, fmt.Sprintf("tx %s: notification %d repeats the safe report of notification %d (proof present: %v)", n, i, i-1, s.MerkleProof != nil))
 			}
 			if s.Safe && s.MerkleProof == nil {
 				safeReports++
@@ -679,6 +717,9 @@ func (w *World) checkSafeWarranted(n string, t *txTrack, i int, delay int64) {
 		if !w.conflicts(n, b) {
 			continue
 		}
+		if w.evictedBefore(b, at) {
+			continue // a confirmed double spend removed it from tracking: it is not a known conflict any more
+		}
 		for _, a := range w.arrivals[b] {
 			if a.kind == "tx" && a.at < at && (a.src == "local" || a.ready) && a.nodeGen == t.gens[i] {
 				w.fail("C07", "safe-needs-no-conflict", "safe although a conflicting tx is known", fmt.Sprintf("tx %s reported safe at %d ms although conflicting tx %s reached the node at %d ms", n, at/1e6, b, a.at/1e6))
@@ -694,6 +735,11 @@ func (w *World) checkSafeWarranted(n string, t *txTrack, i int, delay int64) {
 func (w *World) checkProof(n string, s client.TxState) {
 	mp := s.MerkleProof
 	b := w.minedIn(n)
+	for _, x := range w.minedBlocks(n) {
+		if x.hash == *mp.BlockHeader.BlockHash() {
+			b = x
+		}
+	}
 	if b == nil {
 		w.fail("C04", "proof-for-mined-tx", "proof for a tx that is in no block", "tx "+n)
 		return
@@ -796,7 +842,7 @@ func (w *World) oracleRequests() {
 		}
 		if fb, ok := w.firstBody(n); ok && fb.ready {
 			for _, r := range rs {
-				if r.at > fb.at && !w.restartBetween(fb.at, r.at) && w.stayedReady(fb.at) {
+				if r.at > fb.at && !w.restartBetween(fb.at, r.at) && w.stayedReady(fb.at) && !w.confirmedBetween(n, fb.at, r.at) {
 					w.fail("C14", "no-request-after-body", "requested after the body arrived", fmt.Sprintf("tx %s body arrived at %d ms, requested again from %s at %d ms", n, fb.at/1e6, r.src, r.at/1e6))
 				}
 			}
@@ -965,13 +1011,11 @@ func (w *World) bodyBefore(c string, b *tblock) bool {
 // confirmedBetween: the tx's confirming block was processed between the two instants (the node
 // keeps no record of confirmed txs, so a fresh announcement after that starts over).
 func (w *World) confirmedBetween(n string, a, b int64) bool {
-	blk := w.minedIn(n)
-	if blk == nil {
-		return false
-	}
-	for _, e := range w.H[0].events {
-		if e.Kind == "headers" && e.Hash == blk.hash && e.At >= a && e.At <= b {
-			return true
+	for _, blk := range w.minedBlocks(n) {
+		for _, e := range w.H[0].events {
+			if e.Kind == "headers" && e.Hash == blk.hash && e.At >= a && e.At <= b {
+				return true
+			}
 		}
 	}
 	return false
